@@ -245,7 +245,40 @@ def o_fieldcov_copy(prog, res, f):
                 c = ir.strip(c["e"])
             return isinstance(c, dict) and c.get("k") == "mem" and is_param_path(c, dst["id"]) == "acquisition_dimensions.data" \
                 and succ_.get("label") == ("true" if neg else "false")
-        ok, w = paths.all_paths_pass(f, "entry", set(init_calls), releases, edge_ok=dst_has_none)
+        # a flag computed once ( const int shared = dst->..data == src->..data ) and tested again further down:
+        # when every allocation is reached only with the flag false, the edges taken with the flag true carry
+        # no obligation (the flag cannot change: single definition)
+        defs = congr.single_defs(f)
+
+        def flag_label(blk, want_true):
+            """label of blk's edge on which a 'same array' flag has the value want_true, or None"""
+            c = ir.strip(blk.cond_node()) if blk.cond_node() is not None else None
+            neg = False
+            while isinstance(c, dict) and c.get("k") == "un" and c.get("op") == "!":
+                neg = not neg
+                c = ir.strip(c["e"])
+            if isinstance(c, dict) and c.get("k") == "ref":
+                t = f.resolve_ref(c)
+                c = ir.strip(t) if t is not None else c
+            if not (isinstance(c, dict) and c.get("k") == "var" and c.get("id") in defs):
+                return None
+            d = ir.strip(defs[c["id"]])
+            if not (isinstance(d, dict) and d.get("k") == "bin" and d.get("op") in ("==", "!=")):
+                return None
+            sides = {is_param_path(ir.strip(d["l"]), dst["id"]), is_param_path(ir.strip(d["r"]), dst["id"]),
+                     is_param_path(ir.strip(d["l"]), src["id"]), is_param_path(ir.strip(d["r"]), src["id"])}
+            if "acquisition_dimensions.data" not in sides:
+                return None
+            same_when_true = d["op"] == "=="
+            val = want_true if same_when_true else not want_true     # value of the variable meaning 'same array' == want_true
+            return ("true" if val else "false") if not neg else ("false" if val else "true")
+        guarded = all(paths.edge_dominated(f, pos_, lambda cn, lab, blk: flag_label(blk, False) == lab)[0] for pos_ in init_calls)
+
+        def discharge(blk, succ_):
+            if dst_has_none(blk, succ_):
+                return True
+            return guarded and blk.cond_node() is not None and flag_label(blk, True) == succ_.get("label")
+        ok, w = paths.all_paths_pass(f, "entry", set(init_calls), releases, edge_ok=discharge)
         inst = "%s: dst's own dimension array released before a new one is allocated" % f.name
         if ok:
             res.oblige(R, inst, True, "destroy(dst) on every path where dst has an array", f.loc())
